@@ -117,12 +117,17 @@ CLAIMS = {
             "(pp_indent_with_tabs -1/0) every line-start column advance folds to allow_tabs=false and a tab after a blank is expanded - "
             "for all inputs and all other option values; the end-of-file newline policy reads only its own option family. Trailing "
             "blanks produced by column arithmetic inside comment continuation lines and alignment are not decided.", "DESIGN.md section 4 C17"),
-    "C18": ("dominance / ordering of the pass pipeline in uncrustify_file and of structure-changing calls relative to indent_text (effect summaries over the call graph)",
-            "NARROW claim: only the pipeline-order clause of the property is decided - levels and spacing are computed before "
+    "C18": ("dominance / ordering of the pass pipeline in uncrustify_file and of structure-changing calls relative to indent_text (effect summaries over the call graph); "
+            "taint census: every read of an original-position accessor reachable from indent_text, with inter-procedural liveness under the all-defaults abstract configuration (constant folding of dominating option tests along every call chain)",
+            "Two clauses of the property are decided. (1) pipeline order: levels and spacing are computed before "
             "indent_text, every structure-changing call of the final loop is followed by the change-counter test that re-runs "
-            "indent_text, and nothing that changes structure runs between the last indent_text and output_text. The column "
-            "arithmetic of indent_text (the actual promise: equal columns per block, indent_columns per level) is NOT decided; "
-            "no sound static argument for it is in reach.", "DESIGN.md section 4 C18"),
+            "indent_text, and nothing that changes structure runs between the last indent_text and output_text. (2) the property's last "
+            "sentence for the default configuration: of the ~160 reads of a chunk's original column/gap in the indent pass, all are "
+            "diagnostics, unreachable with every option at its default (each sits behind an indent_ignore_* / preserve / == -1 option), "
+            "positions of comments, or seven reviewed same-line/diagnostic sites with checked preconditions - so the first token of a "
+            "code line cannot inherit its original column unless an option asks for it. The column arithmetic of indent_text (equal "
+            "columns per block, indent_columns per level) is NOT decided; GetColumn() of a token that has not been re-indented yet is "
+            "not tracked as a carrier of the original column.", "DESIGN.md section 4 C18"),
     "C19": ("CFG dataflow (last-logged-rule x option provenance) over all do_space returns + who-may-call + switch-arm effect check",
             "Every return of do_space() (359) is checked: the option named by the last log_rule on each path is the option whose "
             "value (or a guard on it) decides the return; do_space is reachable only through ensure_force_space; the appliers' "
